@@ -628,6 +628,55 @@ def search(res, tier, boost=False):
             return np.array([self.c[0] * e.h_t * e.h_x * (1 + self.c[1] * e.time_interval[0] + self.c[2] * e.space_interval[1])
                              for e in elems])
 
+    # LARGE element lists (N = 128 ... 200, not a multiple of 64; late adaptive iterations) with a cheap synthetic single-layer
+    # stand-in: every element's indicators against the definition |<rhs - V Phi, psi>|^2 / <V psi, psi>, psi = time split,
+    # space split, checkerboard (shared half-half), children in the order LL, LR, UL, UR
+    class SLStub:
+        """positive, smooth, non-symmetric stand-in for <V 1_trial, 1_test> (no causality needed for the definition)"""
+        def bilform_matrix(self, elems_test=None, elems_trial=None, use_mp=False, **kw):
+            tt = np.array([[0.5 * (e.time_interval[0] + e.time_interval[1]), 0.5 * (e.space_interval[0] + e.space_interval[1]), e.h_t * e.h_x] for e in elems_test], dtype=float)
+            rr = np.array([[0.5 * (e.time_interval[0] + e.time_interval[1]), 0.5 * (e.space_interval[0] + e.space_interval[1]), e.h_t * e.h_x] for e in elems_trial], dtype=float)
+            d2 = (tt[:, None, 0] - rr[None, :, 0])**2 + (tt[:, None, 1] - rr[None, :, 1])**2
+            return tt[:, None, 2] * rr[None, :, 2] * (np.exp(-4 * d2) + 0.3 * np.exp(-d2 - 0.2 * (tt[:, None, 0] - rr[None, :, 0])))
+    for big in range(1 if quick else 3):
+        mesh = _replay_param_mesh('UnitSquare', [0, 1], [])
+        target = rng.choice([131, 149, 197, 263])       # not multiples of 64 (nor of N // 64)
+        while len(mesh.leaf_elements) < target:
+            e = rng.choice(list(mesh.leaf_elements))
+            mesh.refine_axis(e, rng.randint(0, 1))
+        elems = list(mesh.leaf_elements)[:target] if len(mesh.leaf_elements) > target else list(mesh.leaf_elements)
+        n = len(elems)
+        gc = [rng.uniform(0.5, 2), rng.uniform(-1, 1), rng.uniform(-1, 1)]
+
+        def g_big(es, gc=gc):
+            return np.array([gc[0] * e.h_t * e.h_x * (1 + gc[1] * e.time_interval[1] + gc[2] * e.space_interval[0]) for e in es])
+        stub = SLStub()
+        Phi = np.array([rng.uniform(-1, 1) for _ in range(n)])
+        with silence_stdout():
+            got = np.array(HM.HierarchicalErrorEstimator(SL=stub, M0=None, g=g_big).estimate(elems, Phi), dtype=float)
+        kids = [k for ks in HM.DummyElement.uniform_refinement(elems) for k in ks]
+        # children order by geometry (independent of the code's order): LL, LR, UL, UR
+        worst_big = 0.0
+        for i, e in enumerate(elems):
+            ks = sorted(kids[4 * i:4 * i + 4], key=lambda k: (k.time_interval[0], k.space_interval[0]))
+            r = g_big(ks) - stub.bilform_matrix(ks, elems) @ Phi
+            S = stub.bilform_matrix(ks, ks)
+            val = {}
+            for nm, psi in (('t', np.array([1., 1., -1., -1.])), ('x', np.array([1., -1., 1., -1.])), ('c', np.array([1., -1., -1., 1.]))):
+                val[nm] = float(np.dot(r, psi))**2 / float(psi @ S @ psi)
+            want = (val['t'] + 0.5 * val['c'], val['x'] + 0.5 * val['c'])
+            res.count(('hier-large', n, i), True)
+            for col in (0, 1):
+                err = abs(got[i, col] - want[col]) / max(abs(want[col]), 1e-300)
+                worst_big = max(worst_big, err)
+                if err > 1e-9:
+                    res.violation('C20:hier-definition:large-list', dict(n=n, element=i, column=['time', 'space'][col], code=float(got[i, col]),
+                                  definition=float(want[col]), relative_error=float(err), note='synthetic single-layer stand-in; N >= 128'))
+                    break
+            else:
+                continue
+            break
+        res.notes['hier_large_worst'] = max(res.notes.get('hier_large_worst', 0.0), worst_big)
     for case in range(n_cases):
         gamma = rng.choice(['UnitSquare', 'UnitSquare', 'Circle', 'LShape'])
         T = rng.choice([[0, 1], [0, 1], [0, 0.5, 1]])
